@@ -379,6 +379,9 @@ func extractBufioWriterBuf(bw *bufio.Writer, w io.Writer) []byte {
 	return writeBuf
 }
 
-func (c *Conn) writeError(code StatusCode, err error) {
-	c.writeClose(code, err.Error())
+// writeError sends the close frame for an error met while reading. ctx is the
+// context of the read that met it: the read must not outlive it because the
+// peer is slow to take the close frame.
+func (c *Conn) writeError(ctx context.Context, code StatusCode, err error) {
+	c.writeClose(ctx, code, err.Error())
 }
